@@ -198,6 +198,37 @@ def c13_setitem(ci: int, idx: int) -> bool:
     return [(n.name) for n in b2[0][2]] == ["A"] and sorted(n.name for n in b2[1][2]) == ["C", "E"] and b2.current_beat == 0.5 and len(b2) == 2
 
 
+def c13_place_at(vi: int, k: int, off: int) -> bool:
+    """place_notes_at adds to exactly the entry that starts at the given beat (entries as short as a 128th
+    triplet lie closer than 0.01 to each other); a beat that is no entry start changes nothing"""
+    fv, ex = pick([(128.0, Fraction(1, 128)), (value.triplet(128), Fraction(1, 192)), (value.septuplet(64), Fraction(1, 112)), (64.0, Fraction(1, 64)), (4.0, Fraction(1, 4))], vi)
+    b = Bar("C", (4, 4))
+    names = ["C", "E", "G", "B"]
+    for nm in names:
+        if not b.place_notes(nm, fv):
+            return False
+    k = enum(k, 0, 4)
+    off = enum(off, 0, 3)
+    at = b.bar[k][0]
+    if off == 1:
+        at = at + float(Fraction(1, 2048))  # close to, but not, a start beat
+    elif off == 2:
+        at = b.current_beat
+    before = [[e[0], e[1], [n.name for n in e[2]]] for e in b.bar]
+    cb = b.current_beat
+    b.place_notes_at(NoteContainer("A"), at)
+    after = [[e[0], e[1], [n.name for n in e[2]]] for e in b.bar]
+    for i in range(4):
+        want = list(before[i])
+        if off == 0 and i == k:
+            want = [before[i][0], before[i][1], sorted(before[i][2] + ["A"], key=lambda x: "CDEFGAB".index(x))]
+            if sorted(after[i][2]) != sorted(want[2]) or after[i][:2] != want[:2]:
+                return False
+        elif after[i] != want:
+            return False
+    return b.current_beat == cb and len(b) == 4
+
+
 def c13_set_meter(c: int, ui: int) -> bool:
     u = pick([1, 2, 4, 8, 16, 32, 64, 128, 256, 0, 3, 5, 6, 12, 24, -4, 100], ui)
     b = Bar()
@@ -316,6 +347,7 @@ def claims(tier):
     cl.append(Claim("step_full", c13_step_full, inductive=True, pre=[lambda mi, t, k: 0 <= mi < nm and 0 <= t and 0 <= k <= K_MAX], timeout=1200 if q else 3000, bounds="is_full / space_left from an arbitrary state: %d meters; t, k symbolic; empty or non-empty" % nm))
     cl.append(Claim("content", c13_content, pre=[lambda ci, vi: 0 <= ci < len(CONTENT) and 0 <= vi < len(V)], timeout=1200, bounds="6 content forms (string, Note, list of strings, list of Notes, NoteContainer, None) x %d values" % len(V)))
     cl.append(Claim("setitem", c13_setitem, pre=[lambda ci, idx: 0 <= ci < len(CONTENT) - 1 and 0 <= idx < 3], timeout=600, bounds="__setitem__ with 5 content forms at each of 3 indices; place_notes_at"))
+    cl.append(Claim("place_at", c13_place_at, pre=[lambda vi, k, off: 0 <= vi < 5 and 0 <= k < 4 and 0 <= off < 3], timeout=600, bounds="place_notes_at on four entries of 5 short values (128th, its triplet, septuplet 64th, 64th, quarter) at each start beat, near a start beat, and at the end"))
     cl.append(Claim("set_meter", c13_set_meter, pre=[lambda ui: 0 <= ui < 17], timeout=600, bounds="count: every integer (symbolic, unbounded); 17 beat units (enumerated)"))
     nmet = len(METERS) - 1
     if q:
